@@ -530,6 +530,21 @@ def hq_line(mode, dist, seed, n, k, init, ps):
 
 ROUTES = ["single", "twice", "clone", "default"]
 
+# construction routes (op `c` / `cq`): how the object is obtained; `.clone` samples from a clone of it
+CTOR_BASES = ["new", "default", "reset", "update", "default-setters", "default-update"]
+# parameters of `X::default()` as written in the `impl Default` of each distribution (src/distributions/*.rs)
+DEFAULTS = {"normal": [0.0, 1.0], "gamma": [1.0, 1.0], "beta": [1.0, 1.0], "chi2": [1], "t": [1.0], "poisson": [1.0],
+            "binomial": [1, 0.5], "exp": [1.0], "gumbel": [0.0, 1.0], "pareto": [1.0, 1.0], "uniform": [0.0, 1.0], "du": [0, 1],
+            "bern": [0.5]}
+
+
+def c_line(ctor, dist, seed, n, ps):
+    return "c %s %s %d %d %s" % (ctor, dist, seed, n, fmt_params(dist, ps))
+
+
+def cq_line(ctor, dist, seed, n, k, ps):
+    return "cq %s %s %d %d %d %s" % (ctor, dist, seed, n, k, fmt_params(dist, ps))
+
 
 def r_line(route, dist, seed, n, ps):
     return "r %s %s %d %d %s" % (route, dist, seed, n, fmt_params(dist, ps))
@@ -546,6 +561,13 @@ def parse_line(line):
         o = {"op": "s" if op == "h" else "q", "dist": dist, "seed": int(t[3]), "n": int(t[4]), "hist": mode,
              "init": parse_params(dist, rest[:k]), "ps": parse_params(dist, rest[k:])}
         if op == "hq":
+            o["k"] = int(t[5])
+        return o
+    if op in ("c", "cq"):
+        # construction route: judged like a `new(params)` object (for `default` the params are the documented defaults)
+        o = {"op": "s" if op == "c" else "q", "ctor": t[1], "dist": t[2], "seed": int(t[3]), "n": int(t[4]),
+             "ps": parse_params(t[2], t[5:] if op == "c" else t[6:])}
+        if op == "cq":
             o["k"] = int(t[5])
         return o
     if op == "r":
@@ -580,9 +602,9 @@ def model_line(line):
     """`q`, `qmvn`, `hq` are implementation-only.  An `h` line (object reached through update / setters) is, for the
     model, the fresh object with the target parameters: a distribution is a pure function of its current parameters
     (the C18 theorem), so a stale cached sub-sampler in the Rust code is a correspondence difference."""
-    if line.startswith("q") or line.startswith("hq"):
+    if line.startswith("q") or line.startswith("hq") or line.startswith("cq"):
         return None
-    if line.startswith("h ") or line.startswith("r "):
+    if line.startswith("h ") or line.startswith("r ") or line.startswith("c "):
         o = parse_line(line)
         return s_line(o["dist"], o["seed"], o["n"], o["ps"])
     if line.startswith("mvns "):
@@ -866,6 +888,40 @@ def strata(rng, tier, count):
     return lines
 
 
+def ctor_routes(rng, tier, count):
+    """CONSTRUCTION-ROUTE stratum: every distribution, the object obtained by `default()`, `new`, `new` + setters to the same
+    values, `new` + `update`, `default()` + setters / update, and a clone of each.  All lines of one (distribution,
+    parameters) group share the seed: the model side is `new(params)` (`default` = `new` with the default parameters), the
+    oracle twin-compares every route with the `new` line and applies the DKW criterion to the law of the reported
+    parameters."""
+    lines = []
+    quick = tier == "quick"
+    nq = 100000 if quick else 1000000
+    others = {}
+    for dist, ps in cases(rng.fork("targets"), tier):
+        if regime(dist, ps) != "degenerate" and ps != DEFAULTS[dist] and not (dist == "binomial" and ps[0] > 2 ** 53):
+            others.setdefault(dist, []).append(ps)
+    for j, dist in enumerate(sorted(DEFAULTS)):
+        groups = [(DEFAULTS[dist], CTOR_BASES), (rng.choice(others[dist]), [b for b in CTOR_BASES if b != "default"])]
+        if not quick:
+            groups.append((rng.choice(others[dist]), [b for b in CTOR_BASES if b != "default"]))
+        for gi, (ps, bases) in enumerate(groups):
+            seed = rng.u64()
+            n = rng.choice([200, 300, 500])
+            ctors = [b + sfx for b in bases for sfx in ("", ".clone")]
+            for ctor in ctors:
+                lines.append(c_line(ctor, dist, seed, n, ps))
+                count("ctor:%s:%s" % (dist, ctor))
+            # DKW: the default object and its clone always; one more rotating route (all of them in thorough)
+            qs = ["default", "default.clone"] if gi == 0 else []
+            rest = [c for c in ctors if c not in qs and c != "new"]
+            qs += rest if not quick else [rest[(j + gi) % len(rest)]]
+            for ctor in qs:
+                lines.append(cq_line(ctor, dist, rng.u64(), nq, KQ, ps))
+                count("ctor-dkw:%s:%s" % (dist, ctor))
+    return lines
+
+
 INVALID = [("normal", [0.0, -1.0]), ("gamma", [0.0, 1.0]), ("gamma", [1.0, -2.0]), ("beta", [-1.0, 1.0]), ("beta", [1.0, 0.0]),
            ("chi2", [0]), ("t", [0.0]), ("t", [-3.0]), ("poisson", [0.0]), ("poisson", [-1.0]), ("binomial", [5, 1.5]),
            ("binomial", [5, -0.1]), ("exp", [0.0]), ("gumbel", [0.0, 0.0]), ("pareto", [1.0, 0.0]), ("pareto", [-1.0, 1.0]),
@@ -950,6 +1006,10 @@ def corpus():
         hq_line("r", "beta", 18, 50000, KQ, [6.0, 1.0], [1.0, 2.0]), h_line("f", "beta", 18, 50, [2.0, 2.0], [2.0, 5.0]),
         hq_line("f", "chi2", 18, 50000, KQ, [1], [7]), hq_line("u", "chi2", 18, 50000, KQ, [9], [2]),
         h_line("u", "gamma", 18, 50, [0.5, 2.0], [3.0, 0.25]), h_line("r", "binomial", 18, 50, [10, 0.3], [2000, 0.9]),
+        # seeded change C03k: `ChiSquared::default()` embedded `Gamma::default()` = Exp(1) instead of Gamma(1/2, rate 1/2)
+        cq_line("default", "chi2", 11, 50000, KQ, [1]), cq_line("default.clone", "chi2", 11, 50000, KQ, [1]),
+        c_line("new", "chi2", 11, 50, [1]), c_line("default", "chi2", 11, 50, [1]),
+        cq_line("default", "beta", 11, 50000, KQ, [1.0, 1.0]), cq_line("default", "t", 11, 50000, KQ, [1.0]),
         # open finding du:panic:range>=2^63 (dependency alea: hi + 1 - lo overflows i64)
         s_line("du", 7, 5, [0, I64MAX]), s_line("du", 7, 5, [-2 ** 62, 2 ** 62]),
     ]
@@ -993,6 +1053,7 @@ def gen(rng, tier):
             lines.append(hq_line(mode, dist, rng.u64(), nq if tier == "quick" else nq // 4, KQ, init, ps))
             count("hq:%s:%s" % (dist, MODES[mode]))
     lines += strata(rng.fork("strata"), tier, count)
+    lines += ctor_routes(rng.fork("ctor"), tier, count)
     for dist, ps in INVALID:
         lines.append(s_line(dist, rng.u64(), 3, ps))
         count("invalid-params")
@@ -1020,7 +1081,7 @@ def nontrivial(line, reply):
     if t[0] in ("mvn", "qmvn", "mvns"):
         return " ".join(t[:1] + t[2:24])
     o = parse_line(line)
-    return "%s%s %s %s %s" % (o["op"], ":" + o["hist"] if "hist" in o else (":" + o["route"] if "route" in o else ""), o["dist"],
+    return "%s%s %s %s %s" % (o["op"], ":" + o["hist"] if "hist" in o else (":" + o["route"] if "route" in o else (":" + o["ctor"] if "ctor" in o else "")), o["dist"],
                               regime(o["dist"], o["ps"]) if valid(o["dist"], o["ps"]) else "invalid", fmt_params(o["dist"], o["ps"]))
 
 
@@ -1066,6 +1127,9 @@ def oracle(lines, impl):
         elif "route" in o:
             rg += ":via-" + o["route"]
             dist_shown = "[route %s] %s" % (o["route"], dist)
+        elif "ctor" in o:
+            rg += ":ctor-" + o["ctor"]
+            dist_shown = "[object obtained by %s] %s" % (o["ctor"], dist)
         else:
             dist_shown = dist
         if st == "diverged":
@@ -1135,6 +1199,36 @@ def oracle(lines, impl):
                                      "%s%r seed %d n %d: sup|F_n - F| >= %.6f at x = %r exceeds the DKW band %.6f (alpha = 1e-12)"
                                      % (dist_shown, ps, o["seed"], n, L, where, eps), "%.6f" % eps))
     fails += oracle_scale(lines, impl)
+    fails += oracle_twin(lines, impl)
+    return fails
+
+
+def oracle_twin(lines, impl):
+    """Twin comparison of the construction routes: `c` lines with the same distribution, seed, length and (reported)
+    parameters must return exactly what the `new(params)` object returns — draws and generator state, bit for bit."""
+    fails = []
+    groups = {}
+    for i, l in enumerate(lines):
+        if l.startswith("c "):
+            t = l.split()
+            groups.setdefault(tuple(t[2:]), []).append(i)
+    for key, idx in groups.items():
+        ref = [i for i in idx if lines[i].split()[1] == "new"]
+        if not ref or impl[ref[0]].startswith("#"):
+            continue
+        r = impl[ref[0]].strip()
+        for i in idx:
+            ctor = lines[i].split()[1]
+            a = impl[i].strip()
+            if ctor == "new" or a.startswith("#") or a == r:
+                continue
+            o = parse_line(lines[i])
+            ta, tr = a.split(), r.split()
+            pos = next((j for j in range(min(len(ta), len(tr))) if ta[j] != tr[j]), min(len(ta), len(tr)))
+            fails.append(Failure(i, "%s:ctor-route:%s" % (o["dist"], ctor),
+                                 "%s%r obtained by %s does not sample like %s::new with the same parameters (seed %d): the replies differ "
+                                 "from token %d on (%s vs %s)" % (o["dist"], o["ps"], ctor, o["dist"], o["seed"], pos,
+                                                                  " ".join(ta[pos:pos + 2]), " ".join(tr[pos:pos + 2])), r[:200]))
     return fails
 
 
